@@ -1,6 +1,6 @@
 (* C31 -- Hint strings are an unambiguous encoding.  Property theorems only. *)
 From Coq Require Import List String Ascii Bool NArith ZArith.
-From MV Require Import Gen.C31 C31.Model C31.Proofs.
+From MV Require Import Gen.C31 C31.Model C31.Order C31.Proofs C31.ProofsVer C31.ProofsSet.
 Import ListNotations.
 Open Scope string_scope.
 
@@ -12,3 +12,141 @@ Theorem C31_consts :
   version_min_length = 2%Z /\ compatibleset_new_ints = [0%Z; 1%Z] /\
   hint_cache_key_strings = ["h:"] /\ type_cache_key_strings = ["t:"].
 Proof. exact consts. Qed.
+
+(* the hand-coded matchers mean what the patterns say:
+   ^[a-z0-9][a-z0-9\-_\+]*[a-z0-9]$ and the leftmost occurrence of -v<digit> *)
+Theorem C31_type_regexp_matcher : forall s, re_type s = true <->
+  exists f m e, s = String f (m ++ String e EmptyString) /\ type_edge f = true /\
+                all_chars type_mid m = true /\ type_edge e = true.
+Proof. exact re_type_spec. Qed.
+
+Theorem C31_separator_matcher : forall s k, find_sep s = Some k <->
+  exists n, k = n /\ sep_here (drop n s) = true /\ (n < String.length s)%nat /\
+            forall j, (j < n)%nat -> sep_here (drop j s) = false.
+Proof. intros s k. unfold find_sep. exact (find_sep_from_spec s 0 k). Qed.
+
+(* Every hint made from a valid type and a valid version prints to a string that parses back to the same
+   type and version.  The semver library is abstract: V with print/parse; what is assumed of it (for valid
+   versions only): parse (print v) = v, the text starts with "v<digit>", and has no blank or NUL. *)
+Theorem C31_roundtrip :
+  forall (V : Type) (vprint : V -> string) (vparse : string -> V) (vsemver : V -> bool),
+  (forall v, vsemver v = true -> vparse (vprint v) = v) ->
+  (forall v, vsemver v = true -> exists d rest, vprint v = String "v" (String d rest) /\ is_digit d = true) ->
+  (forall v, vsemver v = true -> all_chars plain (vprint v) = true) ->
+  forall t v, type_ok t = true -> vsemver v = true ->
+  parse_hint V vparse (hint_print V vprint (mkHint t v)) = Some (mkHint t v).
+Proof. exact roundtrip. Qed.
+
+(* Parsing never returns a hint that differs from the one that was printed. *)
+Theorem C31_parse_never_other :
+  forall (V : Type) (vprint : V -> string) (vparse : string -> V) (vsemver : V -> bool),
+  (forall v, vsemver v = true -> vparse (vprint v) = v) ->
+  (forall v, vsemver v = true -> exists d rest, vprint v = String "v" (String d rest) /\ is_digit d = true) ->
+  (forall v, vsemver v = true -> all_chars plain (vprint v) = true) ->
+  forall t v h', type_ok t = true -> vsemver v = true ->
+  parse_hint V vparse (hint_print V vprint (mkHint t v)) = Some h' -> h' = mkHint t v.
+Proof. exact parse_never_other. Qed.
+
+(* ... so two valid (type, version) pairs never print to the same string *)
+Theorem C31_print_injective :
+  forall (V : Type) (vprint : V -> string) (vparse : string -> V) (vsemver : V -> bool),
+  (forall v, vsemver v = true -> vparse (vprint v) = v) ->
+  (forall v, vsemver v = true -> exists d rest, vprint v = String "v" (String d rest) /\ is_digit d = true) ->
+  (forall v, vsemver v = true -> all_chars plain (vprint v) = true) ->
+  forall t v t' v', type_ok t = true -> vsemver v = true -> type_ok t' = true -> vsemver v' = true ->
+  hint_print V vprint (mkHint t v) = hint_print V vprint (mkHint t' v') -> t = t' /\ v = v'.
+Proof. exact print_injective. Qed.
+
+(* the same round trip through EnsureParseHint (Hint.UnmarshalText) *)
+Theorem C31_ensure_roundtrip :
+  forall (V : Type) (vprint : V -> string) (vparse : string -> V) (vsemver : V -> bool),
+  (forall v, vsemver v = true -> vparse (vprint v) = v) ->
+  (forall v, vsemver v = true -> exists d rest, vprint v = String "v" (String d rest) /\ is_digit d = true) ->
+  forall t v, type_ok t = true -> vsemver v = true ->
+  ensure_parse_hint V vparse (hint_print V vprint (mkHint t v)) = Some (mkHint t v).
+Proof. exact ensure_roundtrip. Qed.
+
+(* Version.Compare is a total order on (major, minor, patch, prerelease): "highest version" is well defined *)
+Theorem C31_version_compare_total_order :
+  (forall a b, ver_compare a b = Eq <-> a = b) /\
+  (forall a b, ver_compare b a = CompOpp (ver_compare a b)) /\
+  (forall a b c, ver_compare a b = Lt -> ver_compare b c = Lt -> ver_compare a c = Lt).
+Proof.
+  split; [exact (tc_eq _ total_ver_compare)|].
+  split; [exact (tc_anti _ total_ver_compare)|exact (tc_trans _ total_ver_compare)].
+Qed.
+
+(* Decoder lookup by hint finds the registered entry with the same type and major version and the highest
+   registered version: for EVERY history of Add / Find / FindByString / FindBytType / FindBytTypeString on a
+   new set (cache on or off), every Find and every FindByString whose text parses answers
+     found = true  with the value of a registered entry of that (type, major) such that no registered entry
+                   of that (type, major) has a higher version, or
+     found = false when nothing is registered under that (type, major);
+   FindByString answers an error exactly when the text does not parse; only valid hints get registered.
+   (registered = the Adds that returned nil so far; [trace_ok], [lookup_ok], [is_highest] in ProofsSet.v.)
+   Hypothesis [disciplined]: hints of the history with equal String() have equal (type, major), and a text
+   that is the String() of a hint of the history parses to that (type, major) -- which C31_roundtrip /
+   C31_print_injective give for valid hints. *)
+Theorem C31_find_is_highest : forall parse size ops, disciplined parse ops ->
+  trace_ok parse [] ops (snd (run parse (cs_new size) ops)).
+Proof. exact find_is_highest. Qed.
+
+(* ---------------------------------------------------------------- non-vacuity *)
+
+(* a two-element "semver library" satisfying the three hypotheses, with a prerelease containing -v1 *)
+Definition toy_print (b : bool) : string := if b then "v1.0.0" else "v2.0.0-v1".
+Definition toy_parse (s : string) : bool := String.eqb s "v1.0.0".
+
+Example C31_ex_hyps :
+  (forall v, true = true -> toy_parse (toy_print v) = v) /\
+  (forall v, true = true -> exists d rest, toy_print v = String "v" (String d rest) /\ is_digit d = true) /\
+  (forall v, true = true -> all_chars plain (toy_print v) = true).
+Proof.
+  repeat split; intros [] _; try reflexivity.
+  - exists "1"%char, ".0.0". split; reflexivity.
+  - exists "2"%char, ".0.0-v1". split; reflexivity.
+Qed.
+
+Example C31_ex_roundtrip :
+  type_ok "ab-v" = true /\
+  parse_hint bool toy_parse (hint_print bool toy_print (mkHint "ab-v" false)) = Some (mkHint "ab-v" false) /\
+  hint_print bool toy_print (mkHint "ab-v" false) = "ab-v-v2.0.0-v1".
+Proof. vm_compute. repeat split. Qed.
+
+(* the rule before the fix accepted "abc-v2", whose hints parse back as another type and version *)
+Example C31_ex_old_rule_ambiguous :
+  type_ok_old "abc-v2" = true /\ type_ok "abc-v2" = false /\
+  parse_hint string (fun s => s) (hint_string "abc-v2" "v1.0.0") = Some (mkHint "abc" "v2-v1.0.0").
+Proof. vm_compute. repeat split. Qed.
+
+(* prerelease order: the pairs the code before the fix got wrong *)
+Example C31_ex_compare :
+  ver_compare (mkVer 1 0 0 "a") (mkVer 1 0 0 "b") = Lt /\ ver_compare (mkVer 1 0 0 "b") (mkVer 1 0 0 "a") = Gt /\
+  ver_compare (mkVer 1 0 0 "1.12") (mkVer 1 0 0 "1.13") = Lt /\ ver_compare (mkVer 1 0 0 "") (mkVer 1 0 0 "rc.1") = Gt /\
+  ver_compare (mkVer 1 0 0 "2") (mkVer 1 0 0 "13") = Lt /\ ver_compare (mkVer 1 0 0 "alpha") (mkVer 1 0 0 "alpha.1") = Lt.
+Proof. vm_compute. repeat split. Qed.
+
+(* a disciplined history: add a higher version, then a lower one, then look both up (the cache-poisoning witness) *)
+Definition ex_hi := mkSHint "abc" (mkVer 1 5 0 "") "abc-v1.5.0" true.
+Definition ex_lo := mkSHint "abc" (mkVer 1 2 0 "") "abc-v1.2.0" true.
+Definition ex_parse (s : string) : option shint :=
+  if String.eqb s "abc-v1.2.0" then Some ex_lo else if String.eqb s "abc-v1.5.0" then Some ex_hi else None.
+Definition ex_ops := [OAdd ex_hi 1; OAdd ex_lo 2; OFind ex_lo; OFindStr "abc-v1.2.0"; OFindStr "abc"; OFindType "abc"; OFind ex_hi]%N.
+
+Example C31_ex_history :
+  snd (run ex_parse (cs_new 10) ex_ops) =
+  [RAdd true; RAdd true; RFind true 1; RRes (false, "abc-v1.2.0", true, 1); RRes (true, "", false, 0);
+   RRes (false, "abc-v1.5.0", true, 1); RFind true 1]%N.
+Proof. vm_compute. reflexivity. Qed.
+
+Example C31_ex_disciplined : disciplined ex_parse ex_ops.
+Proof.
+  split.
+  - intros h1 h2 H1 H2 E. vm_compute in H1, H2.
+    repeat (destruct H1 as [H1|H1]; [subst h1|]); try contradiction;
+    repeat (destruct H2 as [H2|H2]; [subst h2|]); try contradiction; try reflexivity; discriminate E.
+  - intros s h Hs Hh E. vm_compute in Hs, Hh.
+    repeat (destruct Hs as [Hs|Hs]; [subst s|]); try contradiction;
+    repeat (destruct Hh as [Hh|Hh]; [subst h|]); try contradiction; try discriminate E;
+    eexists; split; reflexivity.
+Qed.
